@@ -127,3 +127,28 @@ Theorem C10_transparent_concat_input_bounds : forall id cs ops,
                 (fresh_answers (SConcat cs) ops) 0 = 0.
 Proof. intros id cs ops. exact (BoundsAll.cached_concat_transparent_all_tiny id cs ops). Qed.
 Print Assumptions C10_transparent_concat_input_bounds.
+
+(* ---- caches NESTED inside trees, in ANY warm state, any mix of option sets: transparent as long as
+   no ReplaceSource with replacements sits above a CachedSource (k2_shape = false: the bundler's
+   shape Concat[Cached(..), Cached(Concat[Cached(..), ..]), ..]).  Every answer along every history
+   - after any warm-up calls on inner cache nodes - attributes as the freshly built cache-free tree.
+   Hypotheses on the input only. ---- *)
+From RS Require Proofs.WarmTreeDefs Proofs.WarmTreeMain Proofs.WarmTreeHist.
+Theorem C10_transparent_nested_warm_caches : forall s ws ops,
+  ColdCache.ids_distinct s -> k2_shape s = false ->
+  RStreamTree.rshape (ColdCache.uncache s) = true -> treeA s = true ->
+  RStreamTree.rsmall (ColdCache.uncache s) = true -> BoundsPos.tiny (ColdCache.uncache s) = true ->
+  answers_equiv (source s) ops (fst (run_hops (ApiTree.run_warm [] s ws) s ops))
+                (fresh_answers (ColdCache.uncache s) ops) 0 = 0.
+Proof. exact WarmTreeHist.warm_history_transparent. Qed.
+Print Assumptions C10_transparent_nested_warm_caches.
+
+(* the property in the checker's form: a CachedSource over a tree that may itself contain caches *)
+Theorem C10_cached_over_caches : forall id a ops,
+  ColdCache.ids_distinct (SCached id a) -> k2_shape a = false ->
+  RStreamTree.rshape (ColdCache.uncache a) = true -> treeA a = true ->
+  RStreamTree.rsmall (ColdCache.uncache a) = true -> BoundsPos.tiny (ColdCache.uncache a) = true ->
+  let '(ans, ref) := api_chist (SCached id a) ops in
+  answers_equiv (source (SCached id a)) ops ans ref 0 = 0.
+Proof. exact WarmTreeHist.warm_chist_transparent. Qed.
+Print Assumptions C10_cached_over_caches.
